@@ -5,12 +5,6 @@ fn to_f32(&self) -> Approximation<f32, Sign>
         self.denominator.v() > 0,                                          // invariant of Repr
         // isize arithmetic on the bit lengths (overflow of isize is outside this contract)
         blen(self.numerator.v()) < isize::MAX / 2 - 64, blen(self.denominator.v()) < isize::MAX / 2 - 64,
-        // KNOWN FINDING (genuine defect, see report): double rounding.  The quotient (24 or 25 bits) is rounded to an
-        // integer and `encode` rounds that integer AGAIN when it does not fit 24 bits / falls in the subnormal range:
-        // RBig 117440522/7 = 16777217.43 -> Inexact(16777216.0, Negative), correct: 16777218.0 (Positive).
-        // Region excluded: non-zero remainder AND rounded quotient * 2^shift not representable.
-        !(-149 - 25 <= rq_shift(self.numerator.v(), self.denominator.v(), 23) < 128
-            && ratio_double_rounding(fmt32(), self.numerator.v(), self.denominator.v())),
     ensures
         // C06: the correctly rounded (RNE) f32 of numerator/denominator, Exact iff nothing was lost, else the sign of
         // result - exact
@@ -23,17 +17,18 @@ fn to_f32(&self) -> Approximation<f32, Sign>
             return Exact(0.);
         }
 
-        // to get enough precision, shift such that numerator has
-        // 24 bits more than the denominator
+        // to get enough precision, shift such that numerator has 26 bits more than
+        // the denominator (two guard bits, so that the only rounding happens in encode)
         let sign = self.numerator.sign();
         let num_bits = self.numerator.bit_len();
         let den_bits = self.denominator.bit_len();
 
-        let shift = num_bits as isize - den_bits as isize - 24; // i.e. exponent
+        let shift = num_bits as isize - den_bits as isize - 26; // i.e. exponent
         /*@ let ghost xn = absi(self.numerator.v()); let ghost xd = self.denominator.v(); let ghost neg = self.numerator.v() < 0;
             let ghost e = shift as int; let ghost gn = rs_num(xn, e); let ghost gd = rs_den(xd, e);
             proof {
-                lemma_quot_bounds(xn, xd, num_bits as nat, den_bits as nat, 23, e);
+                // 2^25 <= quotient < 2^27
+                lemma_quot_bounds(xn, xd, num_bits as nat, den_bits as nat, 25, e);
                 lemma_pow2_consts();
                 if e >= 0 { lemma_pow2_pos(e as nat); } else { lemma_pow2_pos((-e) as nat); }
             } @*/
@@ -56,52 +51,45 @@ fn to_f32(&self) -> Approximation<f32, Sign>
         // then construct the
         if shift >= 128 {
             /*@ proof {
+                assert(gn >= pow2(23) * gd) by (nonlinear_arith) requires gn >= 0x2000000 * gd, pow2(23) == 0x800000, gd > 0;
                 lemma_ratio_overflow(fmt32(), neg, xn, xd, e);
             } @*/
             // max f32 = 2^128 * (1 - 2^-24)
             Inexact(sign * f32::INFINITY, sign)
-        } else if shift < -149 - 25 {
+        } else if shift < -149 - 27 {
             /*@ proof {
-                lemma_underflow_from_quot(fmt32(), neg, xn, xd, e, 25);
+                lemma_underflow_from_quot(fmt32(), neg, xn, xd, e, 27);
             } @*/
-            // min f32 = 2^-149, quotient has at most 25 bits
+            // min f32 = 2^-149, quotient has at most 27 bits
             Inexact(sign * 0f32, -sign)
         } else {
-            /*@ proof { lemma_rq_man(gn, gd); } @*/
             let (man, r) = num.unsigned_abs().div_rem(&den);
             /*@ proof {
-                lemma_quot_fits(gn, gd, 25);
+                lemma_quot_range(gn, gd, 0x2000000, 27);
                 assert(man.v() == gn / gd && r.v() == gn % gd);
             } @*/
             let man: u32 = man.try_into().unwrap();
+            /*@ let ghost q = man as int; let ghost rr = r.v(); @*/
 
-            // round to nearest, ties to even
-            if r.is_zero() {
-                Exact(man)
-            } else {
-                let half = (r << 1).cmp(&den);
-                /*@ proof { assert((man & 1 > 0) == (man % 2 != 0)) by (bit_vector); } @*/
-                if half == Ordering::Greater || (half == Ordering::Equal && man & 1 > 0) {
-                    Inexact(man + 1, sign)
-                } else {
-                    Inexact(man, -sign)
-                }
-            }
-            .and_then(|man| /*@ -> (o: Approximation<f32, Sign>)
-                requires man <= 0x2000000
-                ensures enc_args32(o, sign, man, shift) @*/
-                f32::encode(sign * man as i32, shift as i16))
+            // append a sticky bit for the remainder and let encode round (to nearest, ties to even)
+            /*@ proof {
+                let sb = (!(rr == 0)) as u32;
+                assert(((man << 1) | sb) == 2 * man + sb && ((man << 1) | sb) < 0x10000000) by (bit_vector)
+                    requires man < 0x8000000, sb == 0 || sb == 1;
+            } @*/
+            let man = (man << 1) | (!r.is_zero()) as u32;
+            f32::encode(sign * man as i32, (shift - 1) as i16)
         }
         /*@ proof {
-            if -149 - 25 <= e < 128 {
-                lemma_rq_man(gn, gd);
-                let a = rq_man(gn, gd);
+            if -149 - 27 <= e < 128 {
+                let q = gn / gd;
+                let rr = gn % gd;
                 let fr = fields32(ap_val(ret));
+                lemma_quot_range(gn, gd, 0x2000000, 27);
                 lemma_pow2_pos(23);
                 vstd::arithmetic::div_mod::lemma_mod_bound(ap_val(ret).to_bits_spec() as int, 0x80_0000);
-                assert forall|o: Approximation<f32, Sign>| #[trigger] enc_args32(o, sign, a as u32, shift) implies
-                    ap32_ok(o, neg, sc_num(a, e), sc_den(e)) by { lemma_enc_args32(o, sign, a as u32, shift); }
-                lemma_ratio_final(fmt32(), neg, xn, xd, e, fr, ap_exact(ret), ap_pos(ret));
+                // what encode rounded is (2q + sticky) * 2^(shift-1): by the sticky lemma that is the rounding of x itself
+                lemma_sticky_rne_q(fmt32(), neg, xn, xd, e, q, rr, 26, fr, ap_exact(ret), ap_pos(ret));
             }
         } @*/
     }
